@@ -5,7 +5,7 @@ import vlib
 from props import fam_sym as F
 
 
-MANIFEST = {'technique': 'Coq proof: lia over all hkl per Laue case, lifted to all rows by a kernel-evaluated conjugation link + differential check', 'text': 'C05_exactly_one: for every row of the regenerated table, both conventions and EVERY hkl in Z^3 exactly one member of the Friedel-extended orbit satisfies is_in (uniqueness and existence proved per Laue group with lia, lifted through R*C = C*R-prime links checked by the kernel for all 564 rows); C05_to_asu: to_asu never fails and returns that member with an operation index/sign that produces it; absence/centricity/epsilon equal their definitions over the operation lists. The model is tied to gemmi by an exact differential run over all rows x conventions x an hkl cube and random/special indices, and an orbit-count oracle runs on gemmi itself.', 'note': 'Trusted: Coq kernel + vm_compute; translator; extraction; harness. No axioms. int overflow excluded (|h| < 2^24).'}
+MANIFEST = {'technique': 'Coq proof: lia over all hkl per Laue case, lifted to all rows by a kernel-evaluated conjugation link + differential check', 'text': 'ENUMERATION TO A RESOLUTION LIMIT: over the reals, for any cell, a reflection inside the resolution sphere has |h| <= floor(a/dmin) (Cauchy-Schwarz with the dual basis), so the box scanned by for_all_reflections (get_hkl_limits) misses none (C05_hkl_limits_cover_the_sphere; real-number axioms of the standard library); the listing itself is compared with brute force by the o_miller oracle. C05_exactly_one: for every row of the regenerated table, both conventions and EVERY hkl in Z^3 exactly one member of the Friedel-extended orbit satisfies is_in (uniqueness and existence proved per Laue group with lia, lifted through R*C = C*R-prime links checked by the kernel for all 564 rows); C05_to_asu: to_asu never fails and returns that member with an operation index/sign that produces it; absence/centricity/epsilon equal their definitions over the operation lists. The model is tied to gemmi by an exact differential run over all rows x conventions x an hkl cube and random/special indices, and an orbit-count oracle runs on gemmi itself.', 'note': 'Trusted: Coq kernel + vm_compute; translator; extraction; harness. No axioms. int overflow excluded (|h| < 2^24).'}
 
 def run(chk):
     quick = chk.tier == 'quick'
